@@ -1,0 +1,29 @@
+//! Visibility-only wrappers for the deterministic-simulation harness.
+//! Compiled only with `--cfg era_consensus_verif`. Every function delegates to the
+//! crate-private item it names; there is no logic here.
+#![allow(missing_docs, clippy::missing_docs_in_private_items)]
+use std::collections::HashSet;
+
+pub use crate::gossip::verif as gossip;
+
+/// `pool::PoolWatch`.
+pub struct PoolWatch<K, V>(crate::pool::PoolWatch<K, V>);
+
+impl<K: std::hash::Hash + Eq + Clone, V: Clone> PoolWatch<K, V> {
+    pub fn new(allowed: HashSet<K>, extra_limit: usize) -> Self {
+        Self(crate::pool::PoolWatch::new(allowed, extra_limit))
+    }
+    pub async fn insert(&self, k: K, v: V) -> anyhow::Result<()> {
+        self.0.insert(k, v).await
+    }
+    pub async fn remove(&self, k: &K) {
+        self.0.remove(k).await
+    }
+    pub fn current(&self) -> Vec<(K, V)> {
+        self.0
+            .current()
+            .iter()
+            .map(|(k, v)| (k.clone(), v.clone()))
+            .collect()
+    }
+}
